@@ -8,6 +8,8 @@ void QXmppIq_parse(QXmppIq *self, qdom element)
 __CPROVER_assigns(*self)
 __CPROVER_ensures(self->id == qdom_attribute(element, S("id")) && self->to == qdom_attribute(element, S("to")) && self->from == qdom_attribute(element, S("from")))
 __CPROVER_ensures(self->type == (qdom_attribute(element, S("type")) == S("error") ? QXmppIq_Type__Error : qdom_attribute(element, S("type")) == S("set") ? QXmppIq_Type__Set : qdom_attribute(element, S("type")) == S("result") ? QXmppIq_Type__Result : QXmppIq_Type__Get))
+/* QXmppDiscoveryIq::parseElementFromChild (src/base/QXmppDiscoveryIq.cpp:450-458) stores one of the two enumerators */
+__CPROVER_ensures(self->queryType == 0 || self->queryType == 1)
 ;
 /* QXmppPresence::parse / QXmppMessage::parse: write the object only, emit nothing */
 typedef struct QXmppPresence { int opaque; } QXmppPresence;
